@@ -106,9 +106,10 @@ def hupOnceAfterDetach (initDet : Nat → Nat) (hasHup : Nat → Bool) : List Ob
       ((seen.any fun j => j.id == it.id && j.ob == .detach) || initDet it.id > 0)
     else true) && hupOnceAfterDetach initDet hasHup (seen ++ [it]) rest
 
-/-- (c) a deregistered operator with a hang-up callback gets it (unless the loop is exiting) -/
-def hupNotLost (exit : Bool) (evs : List Ev) (tr : List ObsItem) : Bool :=
-  exit || evs.all fun e =>
+/-- (c) a deregistered operator with a hang-up callback gets it – also when `handler` returns true
+for a close message later in the same batch -/
+def hupNotLost (evs : List Ev) (tr : List ObsItem) : Bool :=
+  evs.all fun e =>
     !(e.op.onHup && tr.any fun j => j.id == e.id && j.ob == .detach) ||
       tr.any fun j => j.id == e.id && j.ob == .onHup
 
@@ -217,7 +218,7 @@ def specCheck (buf0 : Nat) (init : Nat → OpSt) (evs : List Ev) (o : ObsOut) : 
   (if quietAfterDetach o.tr then [] else ["callback-after-detach"]) ++
   (if hupOnceAfterDetach (fun i => (init i).detached) (fun i => evs.any fun e => e.id == i && e.op.onHup) [] o.tr
     then [] else ["hup-not-once-after-detach"]) ++
-  (if hupNotLost o.exit evs o.tr then [] else ["hup-lost"]) ++
+  (if hupNotLost evs o.tr then [] else ["hup-lost"]) ++
   (if tokenOk init evs o then [] else ["token"]) ++
   (if acksOk evs o then [] else ["ack-counts"]) ++
   (if drainedBeforeHup evs o.tr then [] else ["hup-before-data"]) ++
